@@ -235,8 +235,10 @@ func (d *delegate) MergeRemoteState(buf []byte, _ bool) {
 			continue
 		}
 		if err := s.Merge(p.Data); err != nil {
+			// A part that cannot be merged must not keep the remaining
+			// parts (other state keys) from being merged.
 			d.logger.Warn("merge remote state", "err", err, "key", p.Key)
-			return
+			continue
 		}
 	}
 }
